@@ -898,7 +898,7 @@ def tzds():
 READ_BASES_QUICK = [(2003, 12, 31, 10, 14, 55), (2000, 2, 29, 23, 59, 59), (1900, 3, 1, 0, 0, 0)]
 READ_BASES_THOROUGH = READ_BASES_QUICK + [(1970, 1, 1, 0, 0, 0), (1, 1, 1, 0, 0, 0), (9999, 12, 31, 23, 59, 59),
                                           (999, 6, 15, 12, 30, 30)]
-FRACTIONS_QUICK = [".5", ".123456", ".000"]
+FRACTIONS_QUICK = [".5", ".123456", ".000", ".1234567"]   # seven digits: what .NET writes; beyond %f
 FRACTIONS_THOROUGH = FRACTIONS_QUICK + [".999999999", ".0000001"]
 
 
